@@ -637,6 +637,9 @@ class KlongInterpreter():
 
         ctx = {} if f_args is None else {reserved_fn_symbol_map[p]: self.call(q) for p,q in zip(reserved_fn_args,f_args)}
 
+        # .f refers to the whole function, including its local declarations
+        dot_f = f
+
         if is_list(f) and len(f) > 1 and is_list(f[0]) and len(f[0]) > 0:
             # Filter out semicolons and check if ALL remaining elements are symbols.
             # A mixed list like [a 1] is a normal array literal, not a local declaration.
@@ -650,7 +653,7 @@ class KlongInterpreter():
                         ctx[q] = q
                 f = f[1:]
 
-        ctx[reserved_dot_f_symbol] = f
+        ctx[reserved_dot_f_symbol] = dot_f
 
         self._context.push(ctx)
         try:
